@@ -83,6 +83,7 @@ type pageSpec struct {
 	inverty    bool
 	scale      bool
 	narrow     string // none I 1
+	stagger    bool   // baselines of odd columns sit half a leading lower (rows of neighbouring columns alternate)
 	hyphen     bool   // the first body line ends in a hyphen (a word broken across lines)
 	repeat     string // none word letter: same text at a DIFFERENT position (never a sanctioned duplicate)
 	absent     map[[2]int]bool
@@ -127,6 +128,9 @@ func choose(c *harness.Ctx, K, R, W int, mapOrder bool) *pageSpec {
 	p.repeat = c.PickS("repeat", "none", "word", "letter")
 	if R > 1 {
 		p.hyphen = c.Bool("hyphen")
+	}
+	if K > 1 {
+		p.stagger = c.Bool("stagger")
 	}
 	for col := 0; col < K; col++ {
 		for row := 0; row < R; row++ {
@@ -273,6 +277,9 @@ func (p *pageSpec) build() {
 				nw = 1
 			}
 			y := rowY(row)
+			if p.stagger && col%2 == 1 {
+				y -= leading / 2
+			}
 			x := x0
 			isRTL := p.rtl && col == p.K-1 && row == 0
 			// list marker in column 0
